@@ -18,7 +18,7 @@ RULE = (
     "of >= 2 descriptor types; distinct by (input, stream)."
 )
 ASSUMPTIONS = ["non-single descriptors are not generable on this tree (known C02 finding), so =/# bonds are driven through attach_other directly"]
-FLOORS = {"quick": {"contract.attach_other.post": 8000, "molecules_audited": 800, "hostile_calls": 300, "badlist_generations": 200, "distinct_nontrivial": 300}, "thorough": {"contract.attach_other.post": 150000, "hostile_calls": 5000}}
+FLOORS = {"quick": {"contract.attach_other.post": 8000, "molecules_audited": 800, "hostile_calls": 300, "badlist_generations": 200, "distinct_nontrivial": 300}, "thorough": {"contract.attach_other.post": 150000, "hostile_calls": 3500}}
 
 
 def plan(tier, seed):
